@@ -180,11 +180,21 @@ def colliding_world(ctx, rep):
     W = FormWorld(ctx, hash_salt="collide")
     ip = W.ip
     U = build(W)
+    # generated: one operator tree over every assignment of its leaf positions to two leaf values, each available
+    # as two equal-but-distinct objects: sub-objects shared inside one operand, equal copies across operands
+    m0 = W.mesh(0)
+    fv = W.coefficient(W.space(m0, W.element("P", 1, (2,))), 7)
+    scal = dict(ufl_shape=(), ufl_free_indices=(), ufl_index_dimensions=())
+    leaf = lambda k: W.op("Indexed", fv, W.multiindex(k), **scal)  # noqa: E731
+    leaves = {"x0": (leaf(0), 0), "x1": (leaf(1), 1), "y0": (leaf(0), 0), "y1": (leaf(1), 1)}
+    for l1, l2, l3 in itertools.product(leaves, repeat=3):
+        e = W.op("Division", W.op("Sin", leaves[l1][0], **scal), W.op("Product", W.op("Cos", leaves[l2][0], **scal), W.op("Exp", leaves[l3][0], **scal), **scal), **scal)
+        U.add(f"sin({l1})/(cos({l2})*exp({l3}))", e, ("dag", leaves[l1][1], leaves[l2][1], leaves[l3][1]))
     names = [x[0] for x in U.items]
     objs = [x[1] for x in U.items]
     keys = [x[2] for x in U.items]
     n = len(objs)
-    before = [(ip.py_repr(o), exact(W, o)) for o in objs]
+    before = [(ip.py_repr(o),) for o in objs]  # the repr shows the whole operand tree
     bad = 0
     for a, b in itertools.product(range(n), repeat=2):
         try:
@@ -200,7 +210,7 @@ def colliding_world(ctx, rep):
             if bad < 6:
                 rep.violation("C13-collide", where, f"{names[a]} | {names[b]}", f"with colliding hashes {names[a]} == {names[b]} is {e}, but they are {'equal' if keys[a] == keys[b] else 'different'} by construction: the comparison relies on hashes being different")
         for k in (a, b):
-            now = (ip.py_repr(objs[k]), exact(W, objs[k]))
+            now = (ip.py_repr(objs[k]),)
             if now != before[k]:
                 bad += 1
                 if bad < 6:
